@@ -19,6 +19,19 @@ Definition cres_eqb (a b : option Z * bool) : bool :=
   match fst a, fst b with Some x, Some y => x =? y | None, None => true | _, _ => false end && Bool.eqb (snd a) (snd b).
 
 (** C18 cache clauses evaluated on the implementation's own observations of one sequence *)
+(** "without re-querying": the callback ran although an earlier call for the same key stored a success whose
+    lifetime [op_expire] (positive) has not yet run out *)
+Definition requeried_early (hist : list (cop * (option Z * bool))) (o : cop) (r : option Z * bool) : bool :=
+  snd r && existsb (fun h => (op_key (fst h) =? op_key o) && snd (snd h)
+                             && match fst (snd h) with Some _ => true | None => false end
+                             && (0 <? op_expire (fst h)) && (op_now o <? op_now (fst h) + op_expire (fst h))) hist.
+
+Fixpoint cache_norequery (hist : list (cop * (option Z * bool))) (ops : list cop) (res : list (option Z * bool)) : bool :=
+  match ops, res with
+  | o :: ro, r :: rr => negb (requeried_early hist o r) && cache_norequery ((o, r) :: hist) ro rr
+  | _, _ => true
+  end.
+
 Fixpoint cache_spec (hist : list (cop * (option Z * bool))) (ops : list cop) (res : list (option Z * bool)) : bool :=
   match ops, res with
   | [], [] => true
@@ -51,6 +64,7 @@ Definition check_pol (prop : Z) (inp impl : sx) : sx :=
       | Some ops, Some res =>
           let cls := 1 + 2 * Z.min 15 (Z.of_nat (length ops)) in
           if (prop =? 18) && negb (cache_spec [] ops res) then verdict V_SPECFAIL cls [18; 2] (L [])
+          else if (prop =? 18) && negb (cache_norequery [] ops res) then verdict V_SPECFAIL cls [18; 5] (L [])
           else if list_eqb cres_eqb (run_cache dflt [] ops) res then verdict V_OK cls [] (L [])
           else verdict V_DIVERGE cls [] (L [])
       | _, _ => badcase
@@ -62,6 +76,10 @@ Definition check_pol (prop : Z) (inp impl : sx) : sx :=
           let ops := map (fun o => mkCop (op_now o) (op_key o) (op_cb o) reversedns_reverseDnsCacheTLL) ops0 in
           let cls := 4 + 8 * Z.min 15 (Z.of_nat (length ops)) in
           if (prop =? 18) && negb (cache_spec [] ops res) then verdict V_SPECFAIL cls [18; 2] (L [])
+          (* whatever the configured lifetime is, a success outlives the lookup's own timeout (the constant of C08_constants):
+             a shorter lifetime would make "stored until expiry" vacuous *)
+          else if (prop =? 18) && negb (cache_norequery [] (map (fun o => mkCop (op_now o) (op_key o) (op_cb o) reversedns_reverseDnsDefaultTimeout) ops0) res)
+               then verdict V_SPECFAIL cls [18; 5] (L [])
           else if list_eqb cres_eqb (run_cache 0 [] ops) res then verdict V_OK cls [] (L [])
           else verdict V_DIVERGE cls [] (L [])
       | _, _ => badcase
